@@ -25,10 +25,12 @@ func init() { scen.Register("c14", func() scen.Scenario { return &C14{} }) }
 type refRing struct {
 	points []uint32
 	owner  map[uint32]string
+	claim  map[uint32][]string // every host that puts a point at this position
+	shared []uint32            // positions claimed by more than one host
 }
 
 func buildRing(set []endpoint.Endpoint, weighted bool) *refRing {
-	r := &refRing{owner: map[uint32]string{}}
+	r := &refRing{owner: map[uint32]string{}, claim: map[uint32][]string{}}
 	for _, e := range set {
 		rounds := 25
 		if weighted {
@@ -46,8 +48,11 @@ func buildRing(set []endpoint.Endpoint, weighted bool) *refRing {
 				p := uint32(d[4*k]) | uint32(d[4*k+1])<<8 | uint32(d[4*k+2])<<16 | uint32(d[4*k+3])<<24
 				if _, dup := r.owner[p]; !dup {
 					r.points = append(r.points, p)
+				} else if r.owner[p] != e.Host {
+					r.shared = append(r.shared, p)
 				}
 				r.owner[p] = e.Host
+				r.claim[p] = append(r.claim[p], e.Host)
 			}
 		}
 	}
@@ -64,6 +69,25 @@ func (r *refRing) lookup(code uint32) (string, bool) {
 		i = 0
 	}
 	return r.owner[r.points[i]], true
+}
+
+// claimed reports whether host puts a point at the position that serves code. Which of several
+// hosts sharing a position owns it is the implementation's choice; it only has to be the same
+// choice whatever the history (checked by comparing the two instances).
+func (r *refRing) claimed(code uint32, host string) bool {
+	if len(r.points) == 0 {
+		return false
+	}
+	i := sort.Search(len(r.points), func(i int) bool { return r.points[i] >= code })
+	if i == len(r.points) {
+		i = 0
+	}
+	for _, h := range r.claim[r.points[i]] {
+		if h == host {
+			return true
+		}
+	}
+	return false
 }
 
 type C14 struct {
@@ -149,6 +173,15 @@ func (s *C14) Run(c *scen.Ctx) {
 	for i := 0; i < nU; i++ {
 		w := []int32{100, 4, 8, 40, 1, 3, 10}[simrt.Draw(7, "c14.w")]
 		universe = append(universe, mkEp(i, w, 1))
+	}
+	if kind == "consistenthash" && simrt.Draw(4, "c14.collide") == 3 {
+		// two hosts whose Ketama points coincide at one ring position
+		pair := [][2]string{{"10.20.4.85", "10.20.7.30"}, {"10.1.2.90", "10.1.4.55"}, {"10.1.1.139", "10.1.4.120"}}[simrt.Draw(3, "c14.collidepair")]
+		for k := 0; k < 2; k++ {
+			universe[k].Host, universe[k].Weight = pair[k], 100
+			universe[k].Key = universe[k].String()
+		}
+		c.Count("probe.hosts_sharing_a_ring_point", 1)
 	}
 	c.Describe("strategy", kind)
 	c.Describe("weighted", weighted)
@@ -256,7 +289,7 @@ func (s *C14) Run(c *scen.Ctx) {
 				s.fail("history-dependence", "consistent hash: code %d goes to %q (ok=%v) on the instance built by the drawn history and to %q (ok=%v) on the instance that reached the same set %v by another route", code, ha, oka, hb, okb, describe(final))
 				return
 			}
-			if ha != hr || oka != okr {
+			if (ha != hr && !ring.claimed(code, ha)) || oka != okr {
 				s.fail("ring-mismatch", "consistent hash (weighted=%v): code %d goes to %q (ok=%v); the independently built Ketama ring over %v gives %q (ok=%v)", weighted, code, ha, oka, describe(final), hr, okr)
 				return
 			}
@@ -394,6 +427,9 @@ func (s *C14) codes(r *refRing) []uint32 {
 	}
 	if n > 0 {
 		cs = append(cs, r.points[0], r.points[0]-1, r.points[n-1], r.points[n-1]+1)
+	}
+	for _, p := range r.shared {
+		cs = append(cs, p, p-1, p+1)
 	}
 	for i := 0; i < 60; i++ {
 		cs = append(cs, uint32(simrt.Draw(1<<30, "c14.code"))<<2|uint32(simrt.Draw(4, "c14.low")))
